@@ -65,3 +65,26 @@ package prolog
 //@   ensures[exact-or-error] result == nil ==> v is engine.Float && same(*d, v as engine.Float)
 //@   ensures[not-a-float] !(v is engine.Float) ==> result == errConversion && same(*d, old(*d))
 //@   ensures[closed] result == nil || result == errConversion
+
+//@ ---------------------------------------------------------------- the Solutions iterator as a sequential typestate (C12)
+//@ -- ghost field exhausted(s): 1 once a receive on s.next has found the channel closed (the producer goroutine has finished
+//@ -- and nobody will ever receive from s.more again)
+
+//@ func (*Solutions).Next
+//@   property C12
+//@   requires s != nil
+//@   on-recv next gf(exhausted, s)
+//@   at-event send more requires[the-producer-is-still-listening] gf(exhausted, s) == 0
+//@   ensures[closed-means-false-without-communication] old(s.closed) ==> !result && ghost(chanops) == 0
+
+//@ func (*Solutions).Close
+//@   property C12
+//@   requires s != nil
+//@   modifies s.closed
+//@   ensures[repeated-close] old(s.closed) ==> result == ErrClosed && ghost(chanops) == 0 && s.closed
+//@   ensures[first-close] !old(s.closed) ==> result == nil && s.closed
+
+//@ func (*Solutions).Err
+//@   property C12
+//@   requires s != nil
+//@   modifies nothing
